@@ -30,7 +30,8 @@ theorem restart_sound (H : HashFn) (rx : Rx) (B : Bytes) (th : Hdr) (limit : Int
     (hok : AllOk (envOf H rx th []) (crash tgt0 ws k j) valid) (fuel : Nat) :
     let out := Update.loop H rx B th limit frag drop fuel (crash tgt0 ws k j) valid [] 0
     AllOk (envOf H rx th []) out.1 out.2.1 ∧ (∀ c, valid.getD c 0 = 1 → out.2.1.getD c 0 = 1) ∧
-    (out.2.2.2.2 = none → countEq out.2.1 0 = 0) :=
+    (out.2.2.2.2 = none → countEq out.2.1 0 = 0) ∧
+    (∀ i, i < th.lead + th.headerLen → out.1.getD i 0 = (crash tgt0 ws k j).getD i 0) :=
   loop_sound H rx B th limit frag drop hd fuel (crash tgt0 ws k j) valid [] 0 hok
 
 /-- **a chunk that was completely and correctly written before the interruption is never written again**: a chunk the
@@ -46,7 +47,7 @@ theorem valid_chunk_untouched (e : Env) (tgt0 : Bytes) (ws : List (Nat × Bytes)
 to the index checksum — so a chunk cut short by the interruption, or followed by nothing, is not trusted -/
 theorem scan_trusts_only_complete (H : HashFn) (f : Bytes) (hdr : Hdr) (ch : Chunk) (pos : Nat) (d : Bytes)
     (hd : H hdr.chunkHashType (Reader.fileRead f pos ch.compLen) = some d) :
-    C09.scanValue H hdr ch (Reader.readPieces f pos ch.compLen).1 (Reader.readPieces f pos ch.compLen).2.2 = 1
+    Reader.scanValue H hdr ch (Reader.readPieces f pos ch.compLen).1 (Reader.readPieces f pos ch.compLen).2.2 = 1
     ↔ ((Reader.fileRead f pos ch.compLen).length = ch.compLen ∧ (if ch.compLen = 0 then zeros d.length else d) = ch.digest) :=
   C09.scan_value_exact H f hdr ch pos d hd
 
